@@ -57,9 +57,13 @@ class BulkPolicy:
             # cut inside its first row; all others are complete
             k = int(mode.split(":")[1]) if ":" in mode else 1
             mode = "partial_first" if self.calls == k else "full"
+        keep_fixed = None
         if mode == "one_binding":
             # a tiny message buffer: one binding fits per response
-            mode = "partial_first_fixed1"
+            mode, keep_fixed = "partial_first_fixedk", 1
+        elif mode.startswith("max_bindings:"):
+            # a persistent local limit: never more than k bindings per response
+            mode, keep_fixed = "partial_first_fixedk", int(mode.split(":")[1])
         if mode in ("stop_eomv", "fewer", "partial_last", "partial_first"):
             cut = []
             for row in rows:
@@ -79,8 +83,8 @@ class BulkPolicy:
         if mode == "partial_first" and self.rng is not None and n_rep > 1 and rows:
             keep = self.rng.randint(1, n_rep - 1)
             flat = flat[:keep]
-        if mode == "partial_first_fixed1" and rows:
-            flat = flat[:1]
+        if mode == "partial_first_fixedk" and rows:
+            flat = flat[:keep_fixed]
         return list(nonrep) + flat
 
 
